@@ -17,7 +17,7 @@ def plan(tier, seed):
     specs = []
     if tier == 'quick':
         specs.append({'part': 'exhaustive', 'maxlen': 3, 'mod': 1, 'rem': 0})
-        nr, nsh = 1500, 8
+        nr, nsh = 8000, 16
     else:
         for sh in range(8):
             specs.append({'part': 'exhaustive', 'maxlen': 4, 'mod': 8, 'rem': sh})
@@ -175,7 +175,9 @@ _PAIR = re.compile('[\ud800-\udbff][\udc00-\udfff]')
 def rand_string(rnd):
     s = ''.join(rnd.choice(CHARS) for _ in range(rnd.randint(0, 7)))
     # a lone high surrogate directly followed by a lone low one IS a non-BMP character in JSON (UTF-16): not a distinct value
-    return _PAIR.sub('\ud800', s)
+    while _PAIR.search(s):
+        s = _PAIR.sub('\ud800', s)
+    return s
 
 
 def rand_number(rnd):
